@@ -76,6 +76,7 @@ def gen_plan(rng, tier, i):
     for _ in range(rng.randint(1, 2)):
         kind = rng.choice(["sgp4", "sgp4", "kepler", "kepler", "j2", "keplernum"])
         spec = gen_iter.gen_orbit_spec(rng, kind, real_eop)
+        spec.pop("mans", None)  # maneuvers under the numerical propagator belong to C08's pool (the event models know nothing of them)
         if kind == "sgp4":
             spec["tle"] = rng.choice(["iss", "iss", "molniya"])
         if kind in ("kepler", "j2"):
